@@ -56,6 +56,14 @@ def reference(hist):
             elif t[0] == "rst" and len(t) == 1:
                 h = hashlib.sha256()
                 out.append("ok")
+            elif t[0] == "updatenull" and len(t) == 1:
+                out.append("ok")
+            elif t[0] == "hashnull" and len(t) == 1:
+                out.append(hashlib.sha256(b"").hexdigest())
+            elif t[0] == "hmacnullkey" and len(t) == 2:
+                out.append(pyhmac.new(b"", unhx(t[1]), hashlib.sha256).hexdigest())
+            elif t[0] == "hmacnullmsg" and len(t) == 2:
+                out.append(pyhmac.new(unhx(t[1]), b"", hashlib.sha256).hexdigest())
             elif t[0] in ("hash", "spec") and len(t) == 2:
                 out.append(hashlib.sha256(unhx(t[1])).hexdigest())
             elif t[0] in ("hmac", "spechmac") and len(t) == 3:
@@ -171,6 +179,36 @@ VECTORS = [
 ]
 
 
+def null_histories(rng):
+    """empty inputs handed over as (nullptr, 0) - a separate stream, so that a sanitizer abort there
+    does not cut short the exploration of the rest of the property"""
+    hs = []
+    d = C.CORPUS / "C17" / "null"
+    if d.exists():
+        for f in sorted(d.glob("*.txt")):
+            h = [l for l in f.read_text().splitlines() if l.strip() and not l.startswith("#")]
+            if h:
+                hs.append(h)
+    hs += [["hashnull"], ["updatenull", "final"], ["hmacnullkey -"], ["hmacnullkey 616263"], ["hmacnullmsg -"],
+          ["hmacnullmsg 6b6579"], [f"hmacnullmsg {hx(rbytes(rng, 64))}"], [f"hmacnullmsg {hx(rbytes(rng, 65))}"]]
+    for _ in range(6):
+        h = []
+        for _ in range(8):
+            k = rng.random()
+            if k < 0.3:
+                h += [f"update {hx(rbytes(rng, rng.randrange(130)))}", "updatenull", "final"]
+            elif k < 0.5:
+                h.append(f"hmacnullkey {hx(rbytes(rng, rng.randrange(130)))}")
+            elif k < 0.7:
+                h.append(f"hmacnullmsg {hx(rbytes(rng, rng.choice([0, 1, 63, 64, 65, 100])))}")
+            elif k < 0.85:
+                h.append("hashnull")
+            else:
+                h += ["updatenull", "updatenull", "final"]
+        hs.append(h)
+    return hs
+
+
 def histories_for(ctx):
     rng = ctx.rng
     quick = ctx.tier == "quick"
@@ -264,7 +302,7 @@ def nontrivial(h, out):
 def check(ctx):
     ctx.assumptions += [
         "total number of bytes fed to one hasher between resets < 2^61 (hypothesis of the theorems; the generators stay far below)",
-        "the byte ranges passed to update/hash/hmac are valid for their size (the harness passes exactly sized heap copies under ASan)",
+        "the byte ranges passed to update/hash/hmac are valid for their size (the harness passes exactly sized heap copies under ASan); an empty range may be (nullptr, 0) - exercised by the stream 'sha-null-args'",
         "a freshly constructed hasher's buffer content is indeterminate in C++; the model starts with zeros (never read before written: the harness poisons the storage with 0xAA)",
     ]
     proof_ok = C.proof_stage(ctx, PROPS, [DRIVER], gen=gen_sha.gen, leanchecker=(ctx.tier == "thorough"))
@@ -293,6 +331,13 @@ def check(ctx):
         diffs = C.differential(ctx, harness, C.driver_path(DRIVER), hs, reference, C.default_eq, nontrivial=nontrivial, timeout=600)
         ctx.log(f"{len(hs)} histories, {ctx.cov['evaluations']} op lines, {len(diffs)} disagreement(s)")
         report(ctx, diffs, harness, C.driver_path(DRIVER), "sha-ops")
+        nh = null_histories(ctx.rng)
+        for h in nh:
+            for l in h:
+                ops[l.split()[0]] = ops.get(l.split()[0], 0) + 1
+        nd = C.differential(ctx, harness, C.driver_path(DRIVER), nh, reference, C.default_eq, nontrivial=nontrivial, chunk=1)
+        ctx.log(f"null-argument stream: {len(nh)} histories, {len(nd)} disagreement(s)")
+        report(ctx, nd, harness, C.driver_path(DRIVER), "sha-null-args")
     finally:
         try:
             harness.unlink()
